@@ -5,6 +5,8 @@ import (
 	"errors"
 	"fmt"
 	"math"
+	"strconv"
+	"strings"
 	"sync"
 
 	"github.com/pinealctx/neptune/syncx/pipe/mux"
@@ -50,8 +52,13 @@ type config struct {
 	// life cycle: the group is started before plan step StartAt (0 = at once) and stopped before plan
 	// step StopAt (-1 = only when the history is over)
 	StartAt, StopAt int
-	Ptr             bool // values are pointers to rows; the very objects are retained
-	Late            bool // retained replies are rendered when the history is over
+	Ptr             bool   // values are pointers to rows; the very objects are retained
+	VK              string // further dynamic kinds of a row: "" (int / sized / pointer as above) | str | slice | map |
+	//                        nilp (typed nil pointer) | nil (untyped nil).  All rows of a nil history are one row.
+	DK     string // dynamic kind of the `data` argument: val | ptr (scribbled over after the call) | nil
+	EK     string // which error an injected store failure is (sentinels of mux / context, wrapped ...)
+	WrapNF bool   // the store's not-found error arrives wrapped
+	Late   bool   // retained replies are rendered when the history is over
 }
 
 type step struct {
@@ -72,7 +79,9 @@ type opctx struct {
 	ctx       context.Context
 	cancel    context.CancelFunc
 	cancelled bool
-	follow    *step // call to make in the same goroutine after this one returned
+	follow    *step       // call to make in the same goroutine after this one returned
+	data      interface{} // the `data` argument as passed
+	injected  bool        // one of its store callbacks was made to fail
 }
 
 type world struct {
@@ -115,6 +124,11 @@ type ckey struct{ n int }
 
 func (ckey) HashedInt() int { return 42 }
 
+// pkey is a key whose dynamic type is a pointer.
+type pkey struct{ n int }
+
+func (p *pkey) HashedInt() int { return p.n }
+
 func mkKey(kt string, k int) mux.Hashed2Int {
 	switch kt {
 	case "mix": // distinct keys (different wrapper types), all with HashedInt() = 7
@@ -125,12 +139,20 @@ func mkKey(kt string, k int) mux.Hashed2Int {
 			mux.IntCRC(5), mux.UIntCRC(5), mux.Int32CRC(9), mux.UInt32CRC(9)}[(k-1)%8]
 	case "const":
 		return ckey{k}
+	case "ptrkey": // a pointer type as key: identity is the pointer
+		return &pkey{k * 11}
+	case "mod": // hashed ints at and around multiples of the default worker count
+		return []mux.Hashed2Int{mux.Int(126), mux.Int(127), mux.Int(128), mux.Int(254), mux.Int(-127), mux.Int(0),
+			mux.Int(8192), mux.Int(-128)}[(k-1)%8]
 	case "minmix": // equal after the int conversion, at the extreme
 		return []mux.Hashed2Int{mux.Int64(math.MinInt64), mux.UInt64(1 << 63), mux.Int(math.MinInt64), mux.Int64(-1),
 			mux.Int(-1), mux.Int8(-1), mux.Int16(-1), mux.Int32(-1)}[(k-1)%8]
 	case "neg":
 		return mux.Int(-37 * k)
 	case "str":
+		if k == 1 {
+			return mux.String("") // the empty key is a key
+		}
 		return mux.String(fmt.Sprintf("key-%d", k))
 	case "crc":
 		return mux.Int64CRC(int64(k) * 1000)
@@ -152,7 +174,24 @@ func mkKey(kt string, k int) mux.Hashed2Int {
 	return mux.Int(k)
 }
 
+// nilRow: the id under which a nil row is logged (nil histories give every operation this datum).
+const nilRow = 999
+
+func (wd *world) nilKind() bool { return wd.cfg.VK == "nil" || wd.cfg.VK == "nilp" }
+
 func (wd *world) mkVal(v int) interface{} {
+	switch wd.cfg.VK {
+	case "str":
+		return "r" + strconv.Itoa(v)
+	case "slice": // not comparable
+		return []int{v}
+	case "map": // not comparable
+		return map[string]int{"v": v}
+	case "nilp":
+		return (*pv)(nil)
+	case "nil":
+		return nil
+	}
 	if wd.cfg.Ptr {
 		return &pv{v}
 	}
@@ -162,8 +201,30 @@ func (wd *world) mkVal(v int) interface{} {
 	return v
 }
 
+func (wd *world) toInt(v interface{}) int {
+	if wd.nilKind() {
+		if p, ok := v.(*pv); v == nil || (ok && p == nil) {
+			return nilRow
+		}
+		return nilVal
+	}
+	return toInt(v)
+}
+
 func toInt(v interface{}) int {
 	switch x := v.(type) {
+	case string:
+		if n, err := strconv.Atoi(strings.TrimPrefix(x, "r")); err == nil && strings.HasPrefix(x, "r") {
+			return n
+		}
+	case []int:
+		if len(x) == 1 {
+			return x[0]
+		}
+	case map[string]int:
+		if n, ok := x["v"]; ok && len(x) == 1 {
+			return n
+		}
 	case int:
 		return x
 	case sv:
@@ -192,7 +253,7 @@ func (f *fac) Peek(key interface{}) (interface{}, bool) { return f.in.Peek(key) 
 func (f *fac) Get(key interface{}) (interface{}, bool)  { return f.in.Get(key) }
 func (f *fac) Set(key interface{}, value interface{}) {
 	f.gate(key)
-	e := tr.E{"ev": "cset", "k": f.wd.kid[key], "v": toInt(value)}
+	e := tr.E{"ev": "cset", "k": f.wd.kid[key], "v": f.wd.toInt(value)}
 	f.wd.retain(e, value)
 	f.wd.logf(e)
 	f.in.Set(key, value)
@@ -263,7 +324,7 @@ func (wd *world) peekAll(k int) []int {
 	}
 	for _, f := range wd.facs {
 		if v, ok := f.Peek(wd.keys[k-1]); ok {
-			out = append(out, toInt(v))
+			out = append(out, wd.toInt(v))
 		}
 	}
 	return out
@@ -306,10 +367,11 @@ func (wd *world) call(o *opctx, fn string, k, d, pre int) (int, error) {
 	var err error
 	switch {
 	case inj:
-		err = errInj
+		err = wd.injErr()
+		o.injected = true
 	case fn == "load":
 		if st == 0 {
-			err = errNF
+			err = wd.nfErr()
 		} else {
 			v = st
 		}
@@ -321,7 +383,7 @@ func (wd *world) call(o *opctx, fn string, k, d, pre int) (int, error) {
 		}
 	case fn == "upd":
 		if st == 0 {
-			err = errNF
+			err = wd.nfErr()
 		} else {
 			wd.store[k], v = d, d
 		}
@@ -337,18 +399,61 @@ func (wd *world) call(o *opctx, fn string, k, d, pre int) (int, error) {
 	}
 	r := tr.E{"ok": err == nil, "v": v, "e": ""}
 	if err != nil {
-		r["e"] = errName(err)
+		r["e"] = wd.errName(o, err)
+		if inj {
+			r["e"] = "inj"
+		}
 	}
 	wd.evs = append(wd.evs, tr.E{"ev": "sce", "id": o.id, "k": k, "fn": fn, "d": d, "pre": pre, "inj": inj, "r": r})
 	return v, err
 }
 
-func errName(err error) string {
+// injErr: what an injected store failure looks like in this history - also the sentinels the packages
+// on either side export, which the group must hand through like any other error of the store.
+func (wd *world) injErr() error {
+	switch wd.cfg.EK {
+	case "dupkey":
+		return mux.ErrDupKey
+	case "closed":
+		return mux.ErrClosed
+	case "qfull":
+		return mux.ErrQFull
+	case "sync":
+		return mux.ErrSync
+	case "canceled":
+		return context.Canceled
+	case "deadline":
+		return context.DeadlineExceeded
+	case "wrapped":
+		return errWrappedInj
+	}
+	return errInj
+}
+
+var errWrappedInj = fmt.Errorf("driver: %w", errInj)
+
+func (wd *world) nfErr() error {
+	if wd.cfg.WrapNF {
+		return errWrappedNF
+	}
+	return errNF
+}
+
+var errWrappedNF = fmt.Errorf("row: %w", errNF)
+
+// errName renders the error a call of operation o ended with.  An error identical to this history's
+// injected failure, on an operation whose callback was made to fail, is that failure ("inj") - unless
+// the harness ended the caller's context itself.
+func (wd *world) errName(o *opctx, err error) string {
+	if o != nil && o.injected && err == wd.injErr() && !(o.cancelled && err == context.Canceled) {
+		return "inj"
+	}
+	if errors.Is(err, errNF) {
+		return "nf"
+	}
 	switch err {
 	case errInj:
 		return "inj"
-	case errNF:
-		return "nf"
 	case errSDup:
 		return "sdup"
 	case mux.ErrDupKey:
@@ -368,17 +473,30 @@ func (wd *world) keyArg(x interface{}) int {
 	defer func() { _ = recover() }() // unhashable foreign argument
 	return wd.kid[x]
 }
-func dataArg(x interface{}) (int, int) {
-	if od, ok := x.(opData); ok {
-		return od.k, od.d
+
+// dataArg: the callback must be handed the very `data` the caller passed (whatever its kind), intact.
+func dataArg(o *opctx, x interface{}) (int, int) {
+	switch d := o.data.(type) {
+	case nil:
+		if x == nil {
+			return o.k, o.d
+		}
+	case opData:
+		if x == d {
+			return d.k, d.d
+		}
+	case *opData:
+		if p, ok := x.(*opData); ok && p == d {
+			return p.k, p.d // a scribbled-over datum shows here
+		}
 	}
 	return 0, nilVal
 }
-func preArg(x interface{}) int {
+func (wd *world) preArg(x interface{}) int {
 	if x == nil {
 		return 0
 	}
-	return toInt(x)
+	return wd.toInt(x)
 }
 
 var _ = context.Background
